@@ -12,6 +12,21 @@ Spec vocabulary (independent of the code):
         PV(i)  = XV(i-1) + sigma * Z(2(i-1), .)                                 proposal of step i >= 1
         acc(i) = T(PV(i)) finite  and  not ( exp(T(PV(i)) - T(XV(i-1))) < U(2(i-1)+1) )
         XV(i)  = PV(i) if acc(i) else XV(i-1)
+
+Contracts:
+  metropolis           loop invariant over the chain index k (rows 0..k of `samples` = XV(0..k), every T(XV(r)) finite,
+                       target_current = T(XV(k)) finite, generator position = 2k); post: result has n_samples rows, row r = XV(1+warmup+r),
+                       all with finite log-target; raises ValueError iff T(params0) is +-inf; frame: one RandomState(seed), global generator untouched.
+  _build_tree_nuts     modular recursion (the recursive calls see `build_tree_spec`, re-bound through Contract.env_post; depth decreases):
+                       n_sub >= 0, n_sub > 0 => T(params1) is neither -inf nor nan, mh_ratio finite, n_steps >= 1, d-vectors, generator only advances.
+  nuts (4 case contracts: stepsize given | searched  x  n_adapt default | given)
+                       loops 0/1 (step-size search): control flow only; loop 2 (iterations): rows 0..k of `samples` are the recorded states SV(0..k)
+                       (ghost history, defined once per row), each a d-vector with log-target neither -inf nor nan, n_total bookkeeping;
+                       loop 3 (doublings): row ii keeps a valid log-target, n_steps >= 1 and n_total > 0 after a doubling, n_ok >= 1.
+                       post: n_iter rows, row r = SV(1+r), none with log-target -inf / nan; ValueError iff infinite start (stepsize=None: also the
+                       documented exhausted search, SystemExit for an invalid step size); frame as above.  Step-size adaptation values are unconstrained.
+Finding of this check on the pinned tree: nuts divides by n_total, which is 0 when the last iteration is n_adapt + 1 (or n_iter = 0)
+  -> `call-pre[division by non-zero]` refuted in all four nuts contracts, replayed natively (ZeroDivisionError for nuts(1, ...), nuts(2, ...), nuts(5, ..., n_adapt=4)).
 """
 MANIFEST = {
     'category': 'proof',
@@ -24,8 +39,8 @@ MANIFEST = {
             'Bounded stand-in: an independently written Metropolis replaying the same RandomState stream, and a grid of NUTS/Metropolis runs.',
     'note': 'Not decided: "on standard targets reproduce the target\'s moments"; NUTS "implements its algorithm" beyond support safety. '
             'Floats are mathematical reals except for the inf/nan tags of log-target values; parameter vectors and gradients are finite.',
-    'technique': 'deductive: loop-invariant / modular-recursion VCs from the real AST (pyvc), extended-real tag semantics, z3/cvc5; '
-                 'bounded stand-in: stream-replay oracle dims 1-3',
+    'technique': 'deductive: loop-invariant / modular-recursion VCs from the real AST (pyvc), extended-real tag semantics, z3; '
+                 'bounded stand-in: stream-replay oracles (independent Metropolis, independent NUTS Algorithm 6) dims 1-3',
 }
 
 import z3
@@ -569,7 +584,8 @@ TRUSTED_BASE = ['pyvc engine: proxies, loop cutting, modular (recursive) calls t
                 'numpy RandomState(seed): the p-th call returns a value determined by the seed and the calls before it; rand() in [0, 1); exponential() >= 0; '
                 'randn(n) has shape (n,) (sanity-tested each run)',
                 'numpy arrays: np.empty / basic slicing / row assignment / elementwise + * / np.inner on 1-D vectors (pyvc.sarray, pyvc.npspec)',
-                'z3 / cvc5 array theory with lambda terms (vectors are arrays Int -> Real normalised outside [0, d))']
+                'z3 array theory with lambda terms (vectors are arrays Int -> Real, 0 outside [0, d)); every obligation of this property is discharged by z3 alone: '
+                'cvc5 1.0.3 does not accept the lambda-array syntax of the exported SMT-LIB text, so there is no second-solver cross-check here']
 ASSUMPTIONS = ['A-REAL: floats are mathematical reals except for the inf/nan TAGS of log-target values: finite - finite is finite, exp(finite) is finite and > 0 '
                '(no overflow / underflow), parameter vectors, momenta and gradients have finite real coordinates',
                'the log-target and its gradient are pure functions of the vector they are given (uninterpreted Vec -> ExtReal / Vec -> Vec); target returns a scalar',
